@@ -300,10 +300,31 @@ static int c03_t81(toks_t *t)
   return 1;
 }
 
+/* seqbytes seed w h ri hs vs nc : baseline Huffman (Annex K tables, not optimised) scan written by jpeg_write_coefficients for the
+   formula coefficients; result = length and digest of the entropy-coded data between the SOS header and EOI */
+static int c03_seqbytes(toks_t *t)
+{
+  c03_job j; unsigned char *jp = NULL; unsigned long n = 0, i, s0 = 0; int err = 0; unsigned long long h = 14695981039346656037ULL;
+  memset(&j, 0, sizeof(j));
+  j.seed = (unsigned long long)tll(t, 1); j.w = (int)tl(t, 2); j.h = (int)tl(t, 3); j.ri = (int)tl(t, 4); j.nc = (int)tl(t, 7);
+  j.ss = j.nc == 1 ? 3 : (int)tl(t, 5) * 10 + (int)tl(t, 6); j.prec = 8; j.kind = 0; j.mode = 0;
+  if (!c03_build(&j, &jp, &n, &err)) { printf("R err build %d\n", err); return 1; }
+  for (i = 2; i + 3 < n; ) {
+    if (jp[i] == 0xFF && jp[i + 1] == 0xDA) { s0 = i + 2 + ((unsigned long)jp[i + 2] << 8 | jp[i + 3]); break; }
+    if (jp[i] == 0xFF && jp[i + 1] != 0xFF && jp[i + 1] != 0) i += 2 + ((unsigned long)jp[i + 2] << 8 | jp[i + 3]); else i++;
+  }
+  if (!s0 || n < s0 + 2) { printf("R err nosos\n"); free(jp); return 1; }
+  for (i = s0; i < n - 2; i++) { h ^= jp[i]; h *= 1099511628211ULL; }
+  printf("R %lu %llu\n", n - 2 - s0, h);
+  free(jp);
+  return 1;
+}
+
 static int dispatch_c03(toks_t *t)
 {
   if (!strcmp(t->tok[0], "ent") && t->n >= 12) return c03_ent(t);
   if (!strcmp(t->tok[0], "t81") && t->n >= 2) return c03_t81(t);
   if (!strcmp(t->tok[0], "t81c") && t->n >= 3) return c03_t81(t);
+  if (!strcmp(t->tok[0], "seqbytes") && t->n >= 8) return c03_seqbytes(t);
   return 0;
 }
